@@ -224,6 +224,10 @@ func ruleTViOnly(c *Ctx, only map[string]bool) {
 		extra := []*big.Int{big.NewInt(252), big.NewInt(65535), big.NewInt(4294967295)}
 		if err == nil {
 			base, bt := pickBase(condBaseTerms(paths), "p0")
+			if bt == nil && len(paths) == 1 && paths[0].Ret != nil {
+				// no branch at all: the result is read from a table keyed by the receiver
+				base, bt = "p0", &T{K: "param", Name: "p0"}
+			}
 			if bt == nil {
 				err = fmt.Errorf("no decision on the receiver found")
 			} else {
